@@ -889,7 +889,7 @@ package pokertable
 //@     && forall(r, 0, 10, forall(i, 0, 10, r < len(Res(te).Players) && i < len(PS(te)) && !isHandEntry(te, i) ==> resPlayer(te, r) != PS(te)[i]))
 
 //@ func (*tableEngine).settleGame
-//@   property C01 C02 C06 C07 C14
+//@   property C01 C02 C06 C07 C08 C14
 //@   returns alive
 //@   config M 2..10 quick 6..6 : te.table.Meta.TableMaxSeatCount = M
 //@   requires ResultFacts(te) && len(SeatMap(te)) == MaxSeats(te) && -1 <= te.sm.BBSeatID && te.sm.BBSeatID < MaxSeats(te)
@@ -905,6 +905,9 @@ package pokertable
 //@   ensures each-result-credited-to-its-player: forall(r, 0, 10, r < len(Res(te).Players) ==> resPlayer(te, r).Bankroll == old(resPlayer(te, r).Bankroll) + Res(te).Players[r].Changed)
 //@   ensures everyone-else-untouched: forall(i, 0, 10, i < len(PS(te)) && !isHandEntry(te, i) ==> PS(te)[i].Bankroll == old(PS(te)[i].Bankroll))
 //@   ensures showdown-win-implies-chance: forall(i, 0, 10, i < len(PS(te)) ==> (PS(te)[i].GameStatistics.IsShowdownWinning ==> PS(te)[i].GameStatistics.ShowdownWinningChance))
+//@   ensures survivors-include-every-hand-player-with-chips: forall(r, 0, 10, r < len(Res(te).Players) && resPlayer(te, r).Bankroll > 0 ==> exists(k, 0, 10, k < len(alive) && alive[k] == resPlayer(te, r)))
+//@   ensures survivors-are-hand-players-with-chips: 0 <= len(alive) && len(alive) <= 10 && forall(k, 0, 10, k < len(alive) ==> alive[k] != nil && alive[k].Bankroll > 0
+//@             && exists(r, 0, 10, r < len(Res(te).Players) && alive[k] == resPlayer(te, r)))
 
 //@ func (*tableEngine).continueGame$2
 //@   property C07 C08 C12
